@@ -120,6 +120,7 @@ type Ledger struct {
 	gotStreamFCE map[uint32]bool
 	GoAwaySeen   bool
 	GoAwayCode   uint32
+	ConnClosed   bool // the subject closed the connection
 	PeerViolated bool // the peer broke a rule: accounting suspended
 	// body bytes the subject's application read out of a stream that was already closed on the wire
 	// (only used to name the cause of an over-return)
@@ -146,8 +147,21 @@ func (l *Ledger) EndHandshake() {
 	l.ConnInit = l.ConnRecv
 }
 
-// Dead reports whether the connection has been terminated with an error.
-func (l *Ledger) Dead() bool { return l.GoAwaySeen && l.GoAwayCode != 0 }
+// Dead reports whether the connection has been terminated (GOAWAY with an error code, or closed by the subject).
+func (l *Ledger) Dead() bool { return (l.GoAwaySeen && l.GoAwayCode != 0) || l.ConnClosed }
+
+// SubjClosedConn records that the subject closed the transport connection.
+func (l *Ledger) SubjClosedConn() { l.ConnClosed = true }
+
+// connErrorAnswered: a connection error of type FLOW_CONTROL_ERROR was signalled. RFC 7540 §5.4.1: the endpoint
+// SHOULD send GOAWAY and MUST close the connection; closing without a GOAWAY is therefore admissible, a GOAWAY
+// with a different error code is not.
+func (l *Ledger) connErrorAnswered() bool {
+	if l.GoAwaySeen && l.GoAwayCode != 0 {
+		return l.GoAwayCode == ErrFlowControl
+	}
+	return l.ConnClosed
+}
 
 // Terminal: nothing more can be concluded from this history.
 func (l *Ledger) Terminal() bool { return l.Dead() || l.PeerViolated }
@@ -520,8 +534,9 @@ func (l *Ledger) HeldOpen() int64 {
 func (l *Ledger) Quiesce() []Violation {
 	// 1. answers required by peer misbehaviour
 	if l.expectConn != "" {
-		if !(l.GoAwaySeen && l.GoAwayCode == ErrFlowControl) {
-			l.bad("overflow-not-rejected", 0, "%s, and the subject did not answer with GOAWAY(FLOW_CONTROL_ERROR)", l.expectConn)
+		if !l.connErrorAnswered() {
+			l.bad("overflow-not-rejected", 0, "%s, and the subject neither answered GOAWAY(FLOW_CONTROL_ERROR) nor closed the connection", l.expectConn)
+			l.viol[len(l.viol)-1].Cause = strings.SplitN(l.expectConn, "(", 2)[0] + " (connection error required)"
 		}
 		l.expectConn = "-"
 	}
@@ -529,12 +544,13 @@ func (l *Ledger) Quiesce() []Violation {
 		if why == "-" {
 			continue
 		}
-		if !(l.gotStreamFCE[id] || (l.GoAwaySeen && l.GoAwayCode == ErrFlowControl)) {
+		if !(l.gotStreamFCE[id] || l.connErrorAnswered()) {
 			kind := "overflow-not-rejected"
 			if strings.HasPrefix(why, "DATA") {
 				kind = "window-excess-not-rejected"
 			}
-			l.bad(kind, id, "%s, and the subject answered neither RST_STREAM(FLOW_CONTROL_ERROR) nor GOAWAY(FLOW_CONTROL_ERROR)", why)
+			l.bad(kind, id, "%s, and the subject answered neither RST_STREAM(FLOW_CONTROL_ERROR) nor GOAWAY(FLOW_CONTROL_ERROR) nor closed the connection", why)
+			l.viol[len(l.viol)-1].Cause = strings.SplitN(why, "(", 2)[0] + " (stream or connection error required)"
 		}
 		l.expectStream[id] = "-"
 	}
@@ -589,7 +605,7 @@ func (l *Ledger) Quiesce() []Violation {
 // Key is a canonical description of the ledger state (for state keys).
 func (l *Ledger) Key() string {
 	var b strings.Builder
-	fmt.Fprintf(&b, "cs%d iws%d mf%d p%d cr%d cu%d ga%v/%d pv%v|", l.ConnSend, l.IWS, l.MaxFrame, len(l.pend), l.ConnRecv, l.ConnUnreturned(), l.GoAwaySeen, l.GoAwayCode, l.PeerViolated)
+	fmt.Fprintf(&b, "cs%d iws%d mf%d p%d cr%d cu%d ga%v/%d cc%v pv%v|", l.ConnSend, l.IWS, l.MaxFrame, len(l.pend), l.ConnRecv, l.ConnUnreturned(), l.GoAwaySeen, l.GoAwayCode, l.ConnClosed, l.PeerViolated)
 	for _, id := range l.IDs() {
 		s := l.Streams[id]
 		if s.Closed() {
